@@ -270,4 +270,13 @@ example : ∃ d, exDev = .ok d := by
   rw [mkDev_eq, mkChans_eq]
   exact ⟨_, rfl⟩
 
+/-- which steps of a device history went through -/
+def traceDev : Dev → List DStep → List Bool
+  | _, [] => []
+  | d, s :: r => (s.run d).2 :: traceDev (s.run d).1 r
+/-- (the same history on the real `Device` gives TypeError, ok, TypeError, TypeError, ok, AttributeError,
+    AssertionError, ok, TypeError) -/
+example : exDev.map (fun d => traceDev d exDevHist) = .ok [false, true, false, false, true, false, false, true, false] := by
+  decide +kernel
+
 end Nxs.C19
